@@ -865,6 +865,29 @@ def r_snapshot( ctx ):
         res.ok( src, gi, 'vector load is the single expression self.value[key]' )
     else:
         res.bad( src, gi, '__getitem__', 'vector load must be the single list operation self.value[key]' )
+    # what a load hands out is a COPY ( a slice of the list, or a fresh one-element list ), never the live storage list itself: the reply is
+    # encoded element by element from what was returned, so handing out self.value lets one read observe several moments of the array.
+    # The bare self.value is only ever returned for a scalar ( an immutable number ): under `self.scalar`.
+    live = []
+    for r_ in walk_no_nested( gi ):
+        if not isinstance( r_, ast.Return ) or r_.value is None:
+            continue
+        def arms( e, under_scalar ):
+            if isinstance( e, ast.IfExp ):
+                pos = pmatch( e.test, 'self.scalar' ) is not None
+                neg = pmatch( e.test, 'not self.scalar' ) is not None
+                for x in arms( e.body, under_scalar or pos ): yield x
+                for x in arms( e.orelse, under_scalar or neg ): yield x
+            else:
+                yield e, under_scalar
+        guarded = any( isinstance( a_, ast.If ) and pmatch( a_.test, 'self.scalar' ) is not None and any( r_ is x for b_ in a_.body for x in ast.walk( b_ )) for a_ in src.ancestors( r_ ))
+        for e, us in arms( r_.value, guarded ):
+            if dotted( e ) == 'self.value' and not us:
+                live.append( r_ )
+    if live:
+        res.bad( src, live[0], 'Attribute.__getitem__ returns the live storage list ( %s )' % norm_text( live[0] ), 'a whole-array read is encoded from the list other sessions are writing into: one reply can show elements from before and after a concurrent multi-element write - a state the array never had' )
+    else:
+        res.ok( src, gi, '__getitem__ hands out a copy ( slice / fresh list ); the bare value only for a scalar' )
     it = [ n for n in ast.walk( pr ) if isinstance( n, ( ast.GeneratorExp, ast.ListComp )) ]
     ok = False
     for gnr in it:
@@ -1018,6 +1041,36 @@ def p_replybit( ctx ):
                 res.bad( src, st.stmt, st.stmt, 'a non-raising path reaches the reply producer without setting the reply bit', func=qn )
             else:
                 res.ok( src, st.stmt, '%s: every non-raising path to the producer sets the reply bit' % qn )
+        # a request that is REFUSED AS UNRECOGNISED keeps its request service code: the frame-level handler tells "not mine" (answered with a
+        # non-zero encapsulation status) from "mine, failed" (an in-band CIP reply) by the escaping RequestUnrecognized and by what it finds in
+        # the artifact - with the reply bit already set, the generic producer renders it as an ordinary reply inside a status-0 frame
+        unrec = [ n for n in cfg.nodes if n.kind == 'stmt' and isinstance( n.stmt, ast.Raise ) and n.stmt.exc is not None and is_call_to( n.stmt.exc, 'RequestUnrecognized' ) ]
+        def dispatch_else( stmt ):
+            # the final `else` of an if / elif chain every test of which compares <art>.service ( the reply-side dispatch ): unreachable for a
+            # recognised request as long as the dispatch is exhaustive, which X-SERVICES decides
+            chain = src.parent.get( stmt )
+            if not isinstance( chain, ast.If ) or stmt not in chain.orelse:
+                return False
+            top = chain
+            while isinstance( src.parent.get( top ), ast.If ) and src.parent[top].orelse == [ top ]:
+                top = src.parent[top]
+            c_ = top
+            while True:
+                if not any( dotted( x_ ) == art + '.service' for x_ in ast.walk( c_.test )):
+                    return False
+                if len( c_.orelse ) == 1 and isinstance( c_.orelse[0], ast.If ):
+                    c_ = c_.orelse[0]
+                else:
+                    return True
+        for u in unrec:
+            hit = [ b for b in bits if u in cfg.reachable( b, labels=( 'next', 'true', 'false', 'back', 'break', 'continue', 'loop-exit' )) ]
+            if hit and dispatch_else( u.stmt ):
+                res.ok( src, u.stmt, '%s: the `else` of the reply-side dispatch on %s.service ( exhaustive per X-SERVICES ) raises RequestUnrecognized' % ( qn, art ), nontrivial=False )
+                continue
+            if hit:
+                res.bad( src, u.stmt, '%s: raise RequestUnrecognized after the reply bit was set ( %s )' % ( qn, norm_text( hit[0].stmt )), 'an unsupported service is rendered as an ordinary reply and sent in a frame with encapsulation status 0; the client is told "success" at the frame level for a request nobody processed', func=qn )
+            else:
+                res.ok( src, u.stmt, '%s: an unrecognised request is refused with its service code untouched' % qn )
         # success assignment implies exactly one reply bit
         succ = [ n for n in cfg.nodes if n.kind == 'stmt' and isinstance( n.stmt, ast.Assign ) and dotted( n.stmt.targets[0] ) == art + '.status'
                  and isinstance( _status_values( n.stmt.value, src, n.stmt ), frozenset ) and _status_values( n.stmt.value, src, n.stmt ) & set( success ) ]
@@ -1267,6 +1320,18 @@ def p_act( ctx ):
         res.ok( src, eofs[0][0], 'EOF (empty recv) sets stats.eof' )
     else:
         res.bad( src, loop[0], 'recv loop', 'an empty recv (EOF) must set stats[\'eof\']' )
+    # each time the framer runs dry the server receives AFRESH: nothing assigned inside the frame-parsing loop is read on a path of an
+    # iteration that has not assigned it (a received block left over from the previous wait makes the loop skip recv() and re-enter the
+    # engine without input: "no progress", the connection is dropped although the request was delivered completely - in two blocks)
+    from .cfg import carried_reads
+    scfg = CFG( fn )
+    stale = carried_reads( scfg, src, loop[0] )
+    if stale:
+        v_, n_ = stale[0]
+        res.bad( src, n_.stmt, 'enip_srv_tcp: %r is read ( %s ) in the frame-parsing loop on a path of the iteration that has not assigned it' % ( v_, norm_text( n_.own())[:60] ),
+                 'the value of the previous wait for input is used: a request that arrives in two or more recv() blocks ( any split offset, byte-at-a-time, frames above the receive size ) is never framed or answered' )
+    else:
+        res.ok( src, loop[0], 'enip_srv_tcp: no local of the frame-parsing loop is carried over from one wait for input to the next' )
     # ---- client.__next__
     csrc = ctx.src( CLIENT )
     nx = csrc.get( 'client.__next__' )
@@ -1756,6 +1821,20 @@ def p_closure( ctx ):
         res.ok( src, w[0], 'each member parsed with target.parser (locked) and asserted terminal' )
     else:
         res.bad( src, cl, 'closure', 'each member must be parsed under `with target.parser` and the parse asserted terminal' )
+        return res
+    # a member joins the list of requests to execute only AFTER its parse completed: the closure runs as a post-processing step whose
+    # exceptions are merely logged, so whatever is already in the list when a member fails to parse is executed by Message_Router.request
+    ccfg = CFG( cl )
+    appends = [ n for n in ccfg.nodes if n.kind == 'stmt' and n.stmt is not None and any( isinstance( c, ast.Call ) and isinstance( c.func, ast.Attribute ) and c.func.attr in ( 'append', 'extend', 'insert' ) for c in ast.walk( n.stmt )) ]
+    anodes = [ n for n in ccfg.nodes if n.kind == 'stmt' and any( n.stmt is a for a in asserts ) ]
+    if not appends:
+        raise AnalysisError( 'state_multiple_service.terminate.closure: the append of a parsed member to the request list not found' )
+    for ap in appends:
+        if anodes and ccfg.must_pass( ccfg.entry, ap, anodes, correlated=False ):
+            res.ok( src, ap.stmt, 'a member is appended to the requests to execute only after its parse was asserted terminal' )
+        else:
+            res.bad( src, ap.stmt, 'closure: %s is reached without passing the assertion that the member parsed completely' % norm_text( ap.stmt ),
+                     'a sub-request that fails to parse ( truncated Write Tag with one complete value ) is already in the list when the exception is swallowed by the post-processing step: its half-parsed content is executed - a tag is altered by something that is not a complete, well-formed request' )
     return res
 
 
@@ -2021,6 +2100,21 @@ def d_refuse( ctx ):
                      'a callee may rewrite the segment it is given (port_link canonicalises in place): the acceptance test then compares a modified request, so a path that differs in link kind is accepted and the tag is accessed' )
         else:
             res.ok( src, acc[0].stmt, 'the request route path is only read before the acceptance test (never passed to a callee)' )
+    # ... and it is the path AS RECEIVED: the only binding of the name that reaches the acceptance test is the read from the request - a
+    # re-binding ahead of the test ( canonicalised segments, the leading segment sliced off for routing ) makes the test judge another path
+    if RP and acc:
+        rebinds = [ n for n in cfg.nodes if n.kind == 'stmt' and isinstance( n.stmt, ( ast.Assign, ast.AugAssign )) and any(
+            isinstance( t_, ast.Name ) and t_.id == RP and isinstance( t_.ctx, ast.Store ) for tg_ in ( n.stmt.targets if isinstance( n.stmt, ast.Assign ) else [ n.stmt.target ] ) for t_ in ast.walk( tg_ )) ]
+        reads = [ n for n in rebinds if isinstance( n.stmt, ast.Assign ) and isinstance( n.stmt.value, ast.Call ) and isinstance( n.stmt.value.func, ast.Attribute ) and n.stmt.value.func.attr == 'get'
+                  and n.stmt.value.args and try_fold( n.stmt.value.args[0] ) == 'route_path.segment' ]
+        other = [ n for n in rebinds if n not in reads and any( a_ in cfg.reachable( n ) for a_ in acc ) ]
+        if other:
+            res.bad( src, other[0].stmt, 'the request route path is re-bound ( %s ) ahead of the acceptance test' % norm_text( other[0].stmt )[:90],
+                     'the test no longer compares the route path that was received: with the leading segment sliced off an unroutable 7/7 becomes the empty path and is accepted as "no route path"; with canonicalised segments a path differing in link kind equals the configured one - the refused request runs locally and writes tags' )
+        elif reads:
+            res.ok( src, reads[0].stmt, 'the only binding of the request route path that reaches the acceptance test is the read from the request' )
+        else:
+            raise AnalysisError( 'UCMM.request: the read of the request route path ( .get( \'route_path.segment\' )) not found' )
     # refusal -> status: covered by the outer try/except of UCMM.request (S-STATUS); the assert is inside it
     outer = [ t for t in fn.body if isinstance( t, ast.Try ) ]
     if outer and acc and any( acc[0].stmt in ast.walk( b ) for b in outer[0].body ):
@@ -2184,12 +2278,18 @@ def t_attrkeys( ctx ):
     # ... and the id before the increment is the largest existing one of the same instance
     big = [ s for s in ast.walk( st ) if isinstance( s, ast.Assign ) and dotted( s.targets[0] ) == ATT and store is not None
             and any( isinstance( x, ast.Attribute ) and x.attr == 'attribute' and dotted( x.value ) == AM.name( '_inst' ) for x in ast.walk( s.value )) ]
-    if inc and store is not None and big:
+    # the value before the increment is the LARGEST existing id: derived through max / sorted( ... )[-1] over the instance's ids
+    largest = [ s_ for s_ in big if any( call_name( c_ ) in ( 'max', 'sorted' ) for c_ in ast.walk( s_.value ) if isinstance( c_, ast.Call )) ]
+    if store is None:
+        raise AnalysisError( 'T-ATTRKEYS: setup_tag: the store <instance>.attribute[str( <id> )] not found' )
+    if inc and largest:
         res.ok( src, inc[0], 'new tag: att = largest id + 1, stored at instance.attribute[str( att )]' )
         n += 1
     else:
-        res.bad( src, st, 'setup_tag allocation', 'a new tag must be allocated the next free attribute id (largest + 1) and stored under str( id )' )
-    if n < 2:
+        res.bad( src, big[0] if big else st, 'setup_tag allocates the id of a new tag as %s' % ( norm_text( big[0] ) if big else '(not derived from the existing ids)' ),
+                 'a new tag must get the next FREE attribute id - the largest existing id + 1; a count ( len ) or any other function of the table re-uses an id as soon as the ids are not contiguous ( a tag bound to an explicit @class/instance/attribute leaves a gap ), and two tag names then share one array' )
+        n += 1
+    if n < 2 and not res.findings:
         raise AnalysisError( 'T-ATTRKEYS: attribute id ordering sites not found' )
     return res
 
@@ -2228,6 +2328,125 @@ def t_retag( ctx ):
                          '' if dotted( a.value ) == dotted( other ) else ' (or something other than the configured one)' ))
         else:
             res.bad( src, a, 'setup_tag: %s = %s' % ( norm_text( t ), norm_text( a.value )), 'the attribute table must receive the configured Attribute' )
+    return res
+
+
+# ---------------------------------------------------------------------------------------- C03: T-TAGLOOP
+
+@rule( 'T-TAGLOOP', props=( 'C03', ), floor=1 )
+def t_tagloop( ctx ):
+    """main(): the configuration loop that turns each `name[@address]=TYPE[size]` argument into a tag entry builds the entry only from values
+    computed for THAT argument: no local that is assigned inside the loop is read on a path of the iteration that has not assigned it (a
+    `path` / `attribute` surviving from the previous argument binds a plain tag to the previous tag's address - two names, one array)"""
+    res = Result( 'T-TAGLOOP' )
+    from .cfg import carried_reads
+    src = ctx.src( MAIN )
+    fn = src.get( 'main' )
+    loops = [ l for l in walk_no_nested( fn ) if isinstance( l, ast.For ) and any( pmatch( c, 'dict.__setitem__( _tags, _name, _entry )' ) is not None for c in ast.walk( l ))
+              and not any( isinstance( x, ast.For ) and x is not l and any( pmatch( c, 'dict.__setitem__( _tags, _name, _entry )' ) is not None for c in ast.walk( x )) for x in ast.walk( l )) ]
+    if len( loops ) != 1:
+        raise AnalysisError( 'main: the per-tag configuration loop ( ... dict.__setitem__( tags, name, entry )) not found (%d)' % len( loops ))
+    loop = loops[0]
+    cfg = CFG( fn )
+    bad = carried_reads( cfg, src, loop )
+    seen = set()
+    for v, n in bad:
+        if v in seen:
+            continue
+        seen.add( v )
+        res.bad( src, n.stmt, 'main: %r is read ( %s ) on a path of the per-tag iteration that has not assigned it' % ( v, norm_text( n.own())[:70] ),
+                 'the tag is configured with a value left over from the PREVIOUS tag argument: a plain tag that follows an addressed one inherits its @class/instance/attribute and aliases (or replaces) its array', func='main' )
+    if not bad:
+        res.ok( src, loop, 'main: every local assigned in the per-tag loop is assigned before it is read in each iteration (%d statements)' % sum( 1 for _ in ast.walk( loop ) if isinstance( _, ast.stmt )))
+    return res
+
+
+# ---------------------------------------------------------------------------------------- C05: D-OWNPATH
+
+@rule( 'D-OWNPATH', props=( 'C05', 'C03', 'C07' ), floor=2 )
+def d_ownpath( ctx ):
+    """a request handler serves and stores ITS OWN attributes only for a request whose path names it: in Object.request and Logix.request every
+    access to the object's attribute table / the looked-up Attribute is dominated - when the request carries a path - by the assertion that
+    the path's class and instance are the handler's own ( resolve( data.path ) == ( self.class_id, self.instance_id )).  A path naming an
+    object that does not exist finds no route ( lookup gives None: "not for another object" ) and reaches the handler that holds the
+    bundle - without the assertion an attribute service @0x77/1/1 reads, and WRITES, the Message Router's own attribute 1: another tag."""
+    res = Result( 'D-OWNPATH' )
+    for rel, qn in (( DEVICE, 'Object.request' ), ( LOGIX, 'Logix.request' )):
+        src = ctx.src( rel )
+        fn = src.get( qn )
+        DATA = fn.args.args[1].arg
+        cfg = CFG( fn )
+        own = [ n for n in cfg.nodes if n.kind == 'stmt' and isinstance( n.stmt, ast.Assert ) and { 'self.class_id', 'self.instance_id' } <= dotted_in( n.stmt.test )
+                and all( isinstance( c_, ast.Compare ) and isinstance( c_.ops[0], ast.Eq ) for c_ in ast.walk( n.stmt.test ) if isinstance( c_, ast.Compare )) ]
+        # the compared ids come from the resolution of the request path
+        ld = LocalDefs( fn )
+        def from_path( a ):
+            ids = [ x.id for x in ast.walk( a.stmt.test ) if isinstance( x, ast.Name ) and x.id != 'self' ]
+            return ids and all( any( is_call_to( d, 'resolve' ) and d.args and dotted( d.args[0] ) == DATA + '.path' for d in ld.defs.get( i, [] )) for i in ids )
+        own = [ a for a in own if from_path( a ) ]
+        nopath = [ m for n in cfg.nodes if n.kind == 'test' and pmatch( n.expr, "'path' in %s" % DATA ) is not None for m, l in cfg.succ[n] if l == 'false' ]
+        # accesses: self.attribute[ ... ] subscripts, and uses of a local bound from lookup( ... ) ( the Attribute of the request )
+        att_locals = { t.id for a_ in walk_no_nested( fn ) if isinstance( a_, ast.Assign ) and is_call_to( a_.value, 'lookup' ) for t in a_.targets if isinstance( t, ast.Name ) }
+        acc = []
+        for n in cfg.nodes:
+            o = n.own()
+            if o is None or n in own:
+                continue
+            if any( isinstance( x, ast.Subscript ) and dotted( x.value ) == 'self.attribute' for x in ast.walk( o )) \
+               or any( isinstance( x, ast.Subscript ) and isinstance( x.value, ast.Name ) and x.value.id in att_locals for x in ast.walk( o )):
+                acc.append( n )
+        if not acc:
+            raise AnalysisError( '%s: no access to the attribute table / the request\'s Attribute found' % qn )
+        if not own:
+            res.bad( src, fn, '%s never asserts that the request path names this object ( class_id / instance_id of resolve( %s.path ))' % ( qn, DATA ),
+                     'a request for an object that does not exist is served from - and stored into - this object\'s attribute of the same number: Set Attribute Single @0x77/1/1 inside a Multiple Service Packet overwrites the tag held by the Message Router\'s attribute 1' )
+            continue
+        bad = [ n for n in acc if not cfg.must_pass( cfg.entry, n, set( own ) | set( nopath ), correlated=False ) ]
+        if bad:
+            res.bad( src, bad[0].stmt, '%s: %s is reachable without the own-path assertion' % ( qn, norm_text( bad[0].own())[:70] ),
+                     'an attribute of THIS object is read or written for a request whose path names another ( possibly non-existent ) object', func=qn )
+        else:
+            res.ok( src, own[0].stmt, '%s: all %d accesses to its attributes are dominated by the assertion that the request path names this object' % ( qn, len( acc )))
+    return res
+
+
+# ---------------------------------------------------------------------------------------- C05: D-UNPACKFMT
+
+@rule( 'D-UNPACKFMT', props=( 'C05', 'C03' ), floor=1 )
+def d_unpackfmt( ctx ):
+    """Object.request, Set Attribute Single: what is stored into the Attribute ( att[:] = val ) is, on EVERY definition reaching the store,
+    the list of struct.unpack( <att>.parser.struct_format, ... ) results - each received element converted with the tag type's own format
+    (signedness included).  Raw payload octets stored for some element size are unsigned: a SINT tag then holds 128..255, and every later
+    read of it fails in struct.pack - an acknowledged write that makes the tag unreadable."""
+    res = Result( 'D-UNPACKFMT' )
+    src = ctx.src( DEVICE )
+    fn = src.get( 'Object.request' )
+    ld = LocalDefs( fn )
+    stores = [ a for a in walk_no_nested( fn ) if isinstance( a, ast.Assign ) and len( a.targets ) == 1 and isinstance( a.targets[0], ast.Subscript )
+               and isinstance( a.targets[0].slice, ast.Slice ) and a.targets[0].slice.lower is None and a.targets[0].slice.upper is None and isinstance( a.targets[0].value, ast.Name ) ]
+    stores = [ a for a in stores if any( pmatch( d, 'self.attribute[_k]' ) is not None for d in ld.defs.get( a.targets[0].value.id, [] )) ]
+    if not stores:
+        raise AnalysisError( 'Object.request: the whole-Attribute store ( att[:] = ... ) of Set Attribute Single not found' )
+    for a in stores:
+        ATT = a.targets[0].value.id
+        vdefs = [ a.value ] if not isinstance( a.value, ast.Name ) else ld.defs.get( a.value.id, [] )
+        bad = []
+        for d in vdefs:
+            ups = [ c for c in ast.walk( d ) if is_call_to( c, 'struct.unpack' ) and c.args ]
+            ok = bool( ups ) and isinstance( d, ( ast.ListComp, ast.GeneratorExp, ast.Call ))
+            for u in ups:
+                f0 = u.args[0]
+                fdefs = [ f0 ] if not isinstance( f0, ast.Name ) else ld.defs.get( f0.id, [] )
+                if not fdefs or any( pmatch( fd, '%s.parser.struct_format' % ATT ) is None for fd in fdefs ):
+                    ok = False
+            if not ok:
+                bad.append( d )
+        if bad or not vdefs:
+            res.bad( src, bad[0] if bad else a, 'Object.request stores %s = %s into the Attribute without converting it with %s.parser.struct_format' % (
+                norm_text( a.targets[0] ), norm_text( bad[0] )[:80] if bad else '?', ATT ),
+                     'raw payload octets are unsigned: a Set Attribute Single of 0x80..0xFF into a SINT Attribute is acknowledged, the tag then holds 128..255, and every later read (Get Attribute Single, Read Tag) fails in struct.pack - the accepted write made the tag unreadable' )
+        else:
+            res.ok( src, a, 'Set Attribute Single: every definition of the stored value unpacks each element with %s.parser.struct_format (%d definition(s))' % ( ATT, len( vdefs )))
     return res
 
 
